@@ -94,35 +94,7 @@ pub open spec fn kind_view(k: Option<TokenKind>, ds: &str, de: &str) -> Option<b
     r.0 matches Some(TokenKind::Element(e)) ==> e.delimiter_start == delimiter_start && e.delimiter_end == delimiter_end,
 //@end
 
-/// ghost view of a token (the text is described separately by tok_value_ok)
-pub struct GTok { pub is_element: bool, pub start: int, pub byte_start: int, pub end: int, pub byte_end: int }
-pub open spec fn tv(t: Token) -> GTok {
-    GTok { is_element: t.kind is Element, start: t.start as int, byte_start: t.byte_start as int, end: t.end as int, byte_end: t.byte_end as int }
-}
-pub open spec fn tvs(ts: Seq<Token>) -> Seq<GTok> { Seq::new(ts.len(), |i: int| tv(ts[i])) }
-/// the token's offsets are in bounds and on character boundaries (so `&source[byte_start..byte_end]` cannot panic)
-/// and an element token carries the configured delimiters. (vstd gives no usable postcondition for str slicing,
-/// so `value == source[byte_start..byte_end]` is NOT part of the contract.)
-pub open spec fn tok_ok(t: Token, b: Seq<u8>, ds: &str, de: &str) -> bool {
-    &&& t.byte_start <= t.byte_end <= b.len()
-    &&& cb(b, t.byte_start as int) && cb(b, t.byte_end as int)
-    &&& t.kind matches TokenKind::Element(e) ==> e.delimiter_start == ds && e.delimiter_end == de
-}
-pub open spec fn toks_ok(ts: Seq<Token>, b: Seq<u8>, ds: &str, de: &str) -> bool {
-    forall|i: int| 0 <= i < ts.len() ==> tok_ok(#[trigger] ts[i], b, ds, de)
-}
-/// C07: the tokens are non-empty, contiguous from character 0 to character `upto`, and their byte offsets are
-/// the byte offsets of their character offsets (so end - start is the number of characters of the slice)
-pub open spec fn tok_chain(ts: Seq<Token>, cs: Seq<char>, upto: int) -> bool {
-    &&& forall|i: int| 0 <= i < ts.len() ==> (#[trigger] ts[i]).start < ts[i].end <= cs.len()
-            && ts[i].byte_start == char_byte_pos(cs, ts[i].start as int) && ts[i].byte_end == char_byte_pos(cs, ts[i].end as int)
-    &&& forall|i: int| 0 <= i < ts.len() - 1 ==> (#[trigger] ts[i]).end == ts[i + 1].start
-    &&& ts.len() > 0 ==> ts[0].start == 0 && ts[ts.len() - 1].end == upto
-    &&& ts.len() == 0 ==> upto == 0
-}
-pub open spec fn no_adjacent_text(ts: Seq<Token>) -> bool {
-    forall|i: int| 0 <= i < ts.len() - 1 ==> !((#[trigger] ts[i]).kind is Text && ts[i + 1].kind is Text)
-}
+//@include tokenizer_vocab.vs
 
 /// state of the scanning fold after the first n characters: (tokens, automaton state, byte_start, start)
 pub open spec fn scan(cs: Seq<char>, ds: Seq<char>, de: Seq<char>, n: int) -> (Seq<GTok>, GState, int, int)
